@@ -163,6 +163,19 @@ impl Engine for FaultEngine {
         } else {
             (sim, store, keys, ops)
         };
+        // "stuck close" family (own tape): from some operation on every record write fails (the
+        // record-write fail point: a retryable I/O error, the scrub of the failed batch works) and
+        // the device never heals; the store is then closed as it is. flush() must say so, reads
+        // stay right, the close has to come back (it gives up after its retry budget) and the file
+        // reopens to something no older than the last acknowledgement
+        let mut sk = Tape::fresh(mix(seed, 0x57CC));
+        if knobs.get("burst").is_none() && knobs.get("chunked").is_none() && sk.chance(1, 12) {
+            knobs.insert("stuck_close".into(), 1);
+            knobs.insert("stuck_from".into(), sk.below(ops.len() as u32 + 1) as i64);
+        }
+        // the close of such a run takes 3.5-8 virtual seconds (1024 attempts with their back-off);
+        // five times that without an end is a close that does not terminate
+        let sim = if knobs.contains_key("stuck_close") { SimConfig { liveness_limit_ns: 40_000_000_000, max_steps: 1_000_000, ..sim } } else { sim };
         Scenario {
             engine: "fault".into(),
             property: property.into(),
@@ -197,6 +210,10 @@ impl Engine for FaultEngine {
             .collect();
         if candidates.is_empty() {
             report.count("no_device_calls", 1);
+            return report;
+        }
+        if sc.knob("stuck_close", 0) == 1 {
+            run_once(sim, sc, Some(FaultPlan::default()), &mut report, &mut pick);
             return report;
         }
         let mode = sc.knob("mode", 1);
@@ -427,7 +444,13 @@ fn run_once(sim: &Arc<Sim>, sc: &Scenario, plan: Option<FaultPlan>, report: &mut
         }};
     }
 
+    let stuck = faulty && sc.knob("stuck_close", 0) == 1;
+    let stuck_from = sc.knob("stuck_from", 0) as usize;
+    let record_write_failures = |sim: &Arc<Sim>| sim.stats().fail_hits.get("record_write").copied().unwrap_or(0);
     for (i, op) in sc.clients[0].iter().enumerate() {
+        if stuck && i == stuck_from {
+            sim.set_buggify("record_write", 1000);
+        }
         match op {
             Op::Settle => {
                 let _ = env.settle();
@@ -473,7 +496,7 @@ fn run_once(sim: &Arc<Sim>, sc: &Scenario, plan: Option<FaultPlan>, report: &mut
                     break;
                 }
                 Res::Err(e @ (ErrKind::Io | ErrKind::Indeterminate)) => {
-                    if faults_fired(&disk) == 0 {
+                    if faults_fired(&disk) == 0 && record_write_failures(sim) == 0 {
                         bail!("flush-failed-without-fault", format!("op #{i}: flush() returned {e:?} although the device never failed"));
                     }
                     poisoned |= *e == ErrKind::Indeterminate;
@@ -549,7 +572,60 @@ fn run_once(sim: &Arc<Sim>, sc: &Scenario, plan: Option<FaultPlan>, report: &mut
         calls_after_open,
         trace: disk.log().iter().map(|e| (e.call, e.op)).collect(),
     };
-    if faulty {
+    if stuck {
+        if stuck_from >= sc.clients[0].len() {
+            sim.set_buggify("record_write", 1000);
+        }
+        // one more modification, so that something is buffered when the store is closed
+        let key = b"stuck:last".to_vec();
+        let value = harness::plain_value(252, 8, 2, 100 + pick.below(6000) as usize);
+        let last_ret = match env.st().insert(&key, &value) {
+            Ok(_) => Some(sim.next_event()),
+            Err(_) => None,
+        };
+        if let Some(ret) = last_ret {
+            hist.entry(key.clone()).or_default().push(Trans { state: Some(Gen { value: value.clone(), ts: env.obs(&key).map(|o| o.ts).unwrap_or(0), expiry: 0 }), ret });
+        }
+        report.count("stuck_device_closes", 1);
+        let (t0, s0) = (sim.now_mono(), sim.stats().steps);
+        sim.op_begin("close");
+        env.close();
+        sim.op_end();
+        report.count("stuck_close_virtual_ms_sum", (sim.now_mono() - t0) / 1_000_000);
+        report.count("stuck_close_steps_sum", sim.stats().steps - s0);
+        let failed = record_write_failures(sim);
+        report.count("record_write_failures", failed);
+        report.nontrivial = failed > 0;
+        sim.set_buggify("record_write", 0);
+        feoxdb::verif::process_restart();
+        if let Err(e) = env.open() {
+            bail!("reopen-failed-after-fault", format!("after closing the store on a device whose record writes kept failing the file cannot be opened: {e:?}"));
+        }
+        let got: Contents = match contents(&env) {
+            Ok(c) => c,
+            Err((rule, detail)) => bail!(&rule, detail),
+        };
+        let run = WorkloadRun {
+            capture: disk.capture_now(),
+            hist: hist.clone(),
+            acks: acks.clone(),
+            calls: 0,
+            first_ack_call: None,
+            ack_calls: Vec::new(),
+            site_calls: Vec::new(),
+            crashed_inside: false,
+            focus_calls: Vec::new(),
+        };
+        let (len, idx) = (env.st().len(), env.st().verif_hash_keys().len());
+        if let Err((rule, detail)) = check_recovered(&run, &got, len, idx, false, sim.now_wall(), &format!("{plan_label} reopen after a close on a stuck device")) {
+            bail!(&rule, detail);
+        }
+        let r = env.st().insert(b"heal:probe", &harness::plain_value(251, 8, 1, 300)).and_then(|_| env.st().flush());
+        match r {
+            Ok(()) | Err(feoxdb::FeoxError::OutOfSpace) => {}
+            Err(e) => bail!("no-heal", format!("after reopening, a new write cannot be flushed: {e:?}")),
+        }
+    } else if faulty {
         let fired = faults_fired(&disk);
         report.count("faults_fired", fired);
         if fired > 0 {
